@@ -157,10 +157,16 @@ def integer(ctx, prog, F, b, ty):
             and strip_casts(digit) == ("bin", "Sub", hC, ("int", 48, "u8"))
         if not ok:
             ctx.violation("REC", key + "|step", "accumulator update is %s, expected num*10 + (byte - b'0') in %s" % (show(got) if got else "?", uty), b.file())
-        flags = ("bin", "BitOr", ("ovf", "Mul", LN, ("int", 10, uty)), ("ovf", "Add", ("bin", "Mul", LN, ("int", 10, uty)), digit))
-        if ("nholds", flags) not in p.conds:
+        f_mul, f_add = ("ovf", "Mul", LN, ("int", 10, uty)), ("ovf", "Add", ("bin", "Mul", LN, ("int", 10, uty)), digit)
+        flags = ("bin", "BitOr", f_mul, f_add)
+        # both flags clear: tested together (overflowing_* and `|`) or one after the other (checked_* and match)
+        clear = ("nholds", flags) in p.conds or (("nholds", f_mul) in p.conds and ("nholds", f_add) in p.conds)
+        if not clear:
             ctx.violation("REC", key + "|overflow", "the loop continues without requiring both overflow flags of num*10 + digit to be clear", b.file())
-        errs = [q for q in paths if q.kind == "return" and ("holds", flags) in q.conds]
+        errs = [q for q in paths if q.kind == "return" and (("holds", flags) in q.conds or ("holds", f_mul) in q.conds or ("holds", f_add) in q.conds)]
+        split_form = ("nholds", flags) not in p.conds
+        if split_form and not (any(("holds", f_mul) in q.conds for q in errs) and any(("holds", f_add) in q.conds for q in errs)):
+            errs = []
         if not errs or any(split_err(q.value) is None or split_err(q.value)[1] != "ParseInteger" for q in errs):
             ctx.violation("REC", key + "|overflow-exit", "an overflowing multiply-add does not lead to Err(ParseInteger)", b.file())
     got = byteset.to_ranges(s)
@@ -191,7 +197,8 @@ def integer(ctx, prog, F, b, ty):
     max_pos = (1 << (bits - 1)) - 1
     max_neg = 1 << (bits - 1)
     for d, items in groups.items():
-        exits = [p for p, _ in items if p.kind == "return" and not any(c[0] == "holds" and c[1][0] == "bin" and c[1][1] == "BitOr" for c in p.conds)]
+        exits = [p for p, _ in items if p.kind == "return" and not any(
+            c[0] == "holds" and (c[1][0] == "ovf" or (c[1][0] == "bin" and c[1][1] == "BitOr")) for c in p.conds)]   # (overflow exits: REC)
         if not signed:
             rows = [Row([], ok_value(LN), name="unsigned: value is the accumulator")]
             cons = []
